@@ -24,9 +24,9 @@ UNITS = [
       timeout=900, min_obl=300, unwind=34, unwindset=VLOOPS_B, bounded="mantissa <= 4 (2 rings, 8 ring members)",
       note="bounded quick stand-in of C07.rangeproof_verify"),
     U("C07.rangeproof_rewind_m3", ["C07", "C09"], "harness/C07/rangeproof_api.c", "h_rewind", defs=["MAXMAN=3", "RP_REWIND_UNIT"],
-      replace=["secp256k1_rangeproof_genrand", "secp256k1_rangeproof_ch32xor"], assumed=ORACLES + RW_ORACLES,
-      functions=["secp256k1_rangeproof_rewind", "secp256k1_rangeproof_rewind_inner"] + FUNCS,
-      timeout=1500, min_obl=300, unwind=34, unwindset=VLOOPS_B + RLOOPS_B, bounded="mantissa <= 3 (2 rings, 6 ring members)", mem_gb=16,
+      replace=["secp256k1_rangeproof_genrand"], assumed=ORACLES + RW_ORACLES,
+      functions=["secp256k1_rangeproof_rewind", "secp256k1_rangeproof_rewind_inner", "secp256k1_rangeproof_ch32xor"] + FUNCS,
+      timeout=1500, min_obl=300, unwind=34, unwindset=VLOOPS_B + RLOOPS_B, bounded="mantissa <= 3 (2 rings, 6 ring members)",
       note="bounded quick stand-in of C07.rangeproof_rewind; message copy loop fully unwound (32 bytes per ring member), message buffer of every length <= 5000"),
     U("C07.rangeproof_info", ["C07", "C10"], "harness/C07/rangeproof_api.c", "h_info",
       functions=["secp256k1_rangeproof_info", "secp256k1_rangeproof_getheader_impl"], timeout=300, min_obl=50, unwind=20, replay=True,
